@@ -50,3 +50,6 @@ SPEC = Spec(
                 "store while the position and kind of interfering steps by other writers are symbolic; the writer must still succeed, its objects must "
                 "be present, complete and correctly named, and the final store must not depend on the interference.",
 )
+
+MANIFEST = {"technique": "rely/guarantee step decided by symbolic execution (CrossHair + z3): real writer code on a model store with position and kind of "
+                         "other writers' atomic steps symbolic (bounded: <= 2 interfering steps)"}
